@@ -1,3 +1,5 @@
+//go:build g_poseidon
+
 package props
 
 import (
